@@ -44,6 +44,13 @@ def cases(tier, rng):
         rng.shuffle(vs)
         for ch in chunks(vs, 12):
             yield (case(m, [st(v) for v in ch], eps=eps), name)
+    # ExponentialCurve with exponents below one and mixed ones, on its fixed points: every component in {0, 1, -1}
+    import itertools as _it
+    fixed = ['(VB true)', '(VB false)'] + [value(1, [x]) for x in (F(0), F(1), F(-1))] + \
+            [value(2, list(c)) for c in _it.product((F(0), F(1), F(-1)), repeat=2)] + [value(3, list(c)) for c in _it.product((F(0), F(1), F(-1)), repeat=3)]
+    for ex in [(F(1, 2), F(1, 2), F(1, 2)), (F(1, 4), F(2), F(3, 2)), (F(3, 4), F(1, 8), F(1)), (F(5, 2), F(1, 2), F(3))]:
+        for ch in chunks(fixed, 14):
+            yield ('(uexp %s %s %s [%s])' % (q(ex[0]), q(ex[1]), q(ex[2]), ' '.join(st(v) for v in ch)), 'exp-fixed-points')
     # fine grid for the dead zones (monotonicity needs many magnitudes) and radial on Pythagorean vectors
     fine = [F(i, 16) for i in range(-20, 21)]
     for lo, hi in [(F(1, 4), F(3, 4)), (F(0), F(1)), (F(1, 2), F(1))]:
@@ -105,10 +112,16 @@ def app_cases(tier, rng):
             acts.append(action(ids, allaids[j], [bind(ids, inp, ms, [])], am, [c_script('KExplicit', [rng.choice(['SFired', 'SFired', 'SOngoing', 'SNone']) for _ in range(L + 1)])] if rng.random() < .5 else []))
         cfg = {(0, 0): spec(acts)}
         steps = [sop(spawn(0, [0])), frame(raw(pads=[pad(0)]))]
+        # time dilation and pauses (the frame delta the modifiers see is the virtual one); not next to DeltaLerp, whose
+        # factor delta*speed would leave the exactly representable grid
+        dilate = 'm_delta_lerp' not in ''.join(acts) and rng.random() < .6
+        tspeed, paused = F(1), False
         for i in range(L):
+            if dilate and rng.random() < .3: tspeed = rng.choice([F(1, 2), F(2), F(1), F(1, 4)])
+            if dilate and rng.random() < .1: paused = not paused
             steps.append(frame(raw(keys=[k for k in range(3) if rng.random() < .6], mbuttons=[k for k in range(2) if rng.random() < .5],
                                    motion=(rng.choice([F(0), F(1), F(-1, 2)]), rng.choice([F(0), F(1, 4)])),
-                                   pads=[pad(0, [], [(a, rng.choice([F(0), F(1, 4), F(3, 4), F(-1)])) for a in range(2)])]), rng.choice([F(1, 8), F(1, 4)])))
+                                   pads=[pad(0, [], [(a, rng.choice([F(0), F(1, 4), F(3, 4), F(-1)])) for a in range(2)])]), rng.choice([F(1, 8), F(1, 4)]), tspeed, paused))
             if i == L // 2 and rng.random() < .2: steps.append(sop(REBUILD))
         yield (scenario([0], [0], cfg, steps), 'bound-in-context')
 
@@ -124,7 +137,7 @@ STAGES = [dict(name='mod', mode='unit', coq='Check.C18c', cases=cases, nontrivia
 
 STAGES.append(dict(name='context', mode='app', coq='Check.C18w', cases=app_cases, nontrivial=nontrivial, shard=25,
                    exhaustive={'thorough': False, 'quick': False},
-                   rule='the same modifiers bound in a real context at input and action level on keys, mouse buttons, mouse motion and gamepad axes over 6-16 frames with rebuilds; '
+                   rule='the same modifiers bound in a real context at input and action level on keys, mouse buttons, mouse motion and gamepad axes over 6-16 frames with rebuilds, time dilation (relative speed 1/4 .. 2) and pauses; '
                         'every application recorded by the wrapper (value in, value out, action states shown) is judged by the laws'))
 CLAUSES = {1: 'Negate does not flip exactly the selected axes', 2: 'Scale is not the per-axis product', 3: 'SwizzleAxis is not the stated permutation of the zero-padded input truncated to the documented dimension',
            4: 'axial DeadZone: non-zero inside the lower threshold, magnitude above one, or sign lost', 5: 'radial DeadZone: non-zero inside the lower threshold, magnitude above one, or direction lost',
